@@ -409,3 +409,53 @@ fn dir_ignore_enoent_all_errnos() {
     kani::cover!(!ok && sel == 1 && errno == libc::EBUSY, "EBUSY stays an error");
     kani::cover!(!ok && sel == 4, "other classes stay errors");
 }
+
+
+/// listing stub that checks the scan open that has just succeeded and then ENDS the path:
+/// decides the arguments of the scan open without paying for anything behind it
+pub(crate) fn k_dir_read_from_cut<Fd: AsFd>(fd: Fd) -> rx::io::Result<Dir> {
+    let raw = fd.as_fd().as_raw_fd();
+    let k = kref();
+    let (nb, nl) = crate::verif_kani::kernel::tail_get();
+    // log: [0] the failed removal (contract stub), [1] the scan open
+    assert!(k.ncalls == 2 && k.log[0].flags == 0xbeef && !k.log[0].ok);
+    let c = k.log[1];
+    assert!(c.kind == C_OPENAT && c.ok && c.ret_fd == raw, "listing is not read from the descriptor of the scan open");
+    assert!(c.dirfd == k.log[0].dirfd && bytes_eq(&c.name, c.name_len, &nb, nl), "scan open is not on (dir, name)");
+    let want = (libc::O_DIRECTORY | libc::O_NOFOLLOW) as u64;
+    assert!(c.flags & want == want, "directory scan open may follow a symlink");
+    assert!(c.flags & (libc::O_CREAT | libc::O_TRUNC) as u64 == 0);
+    kani::cover!(true, "scan open checked");
+    kani::assume(false);
+    Err(rx::io::Errno::from_raw_os_error(libc::EIO))
+}
+
+/// removal failed (EACCES: undeletable entry), the scan open SUCCEEDS: its arguments
+#[kani::proof]
+#[kani::unwind(8)]
+#[kani::stub(crate::utils::dir::remove_inode, k_remove_inode)]
+#[kani::stub(crate::syscalls::openat_follow, k_openat_follow)]
+#[kani::stub(rx::fs::Dir::read_from, k_dir_read_from_cut)]
+#[kani::stub(alloc::fmt::format, k_format)]
+fn dir_scan_open_flags() {
+    install_close_model();
+    reset(3);
+    let d = given_fd(true);
+    {
+        let k = kmut();
+        k.plan[0] = P_FAIL;
+        k.plan[1] = P_OK;
+        k.fixed_errno = libc::EACCES;
+    }
+    let buf: [u8; PATH_L] = kani::any();
+    let len: usize = kani::any();
+    kani::assume(len <= PATH_L);
+    let nameb = &buf[..len];
+    kani::assume(!refused(nameb));
+    crate::verif_kani::kernel::tail_set(&buf, len);
+    let res = remove_all(borrow_fd(d), Path::new(OsStr::from_bytes(nameb)));
+    std::mem::forget(res);
+    // every path through the scan open ends in the listing stub; coming back here means the
+    // slow path was not taken although the removal failed with an errno other than ENOENT
+    assert!(false, "a failed removal did not lead to the directory scan");
+}
